@@ -119,6 +119,10 @@ def lower_of(ctx, repo, fi, cfg, loop, use_node, a, _depth=0):
     if isinstance(v, int) and not isinstance(v, bool):
         return v, "constant"
     txt = ast.unparse(a)
+    # an entry of a literal table of integers is at least the smallest entry
+    if isinstance(a, ast.Subscript) and isinstance(a.value, (ast.Tuple, ast.List)) and a.value.elts and \
+            all(isinstance(e_, ast.Constant) and type(e_.value) is int for e_ in a.value.elts):
+        return min(e_.value for e_ in a.value.elts), "smallest entry of the constant table"
     # non-negative by construction
     nonneg = False
     if isinstance(a, ast.Call) and (txt.endswith(".get_length()") or call_name(a) in ("len", "int.from_bytes")):
